@@ -1,21 +1,19 @@
 (* model_run: reads one case per line (same files the Rust harness reads) and
-   prints the model's canonical result per line. Parsing/printing only. *)
-open Conv
-
+   prints the model's canonical result per line. Parsing/printing only.
+   Probes live in p_*.ml and register themselves (see registry.ml); build.sh
+   links every p_*.ml and forces their initialisation through all_probes.ml. *)
 let split s = Stdlib.List.filter (fun x -> x <> "") (Stdlib.String.split_on_char ' ' s)
 
-let run (t : string list) : string =
-  match t with
-  | p :: _ when Stdlib.String.length p >= 5 && Stdlib.String.sub p 0 5 = "time_" -> P_time.run t
-  | _ -> "UNKNOWN_PROBE"
-
 let () =
+  All_probes.init ();
   try
     while true do
       let line = input_line stdin in
       let t = split line in
       if t <> [] then begin
-        (try print_string (run t) with e -> print_string ("MODEL_EXN " ^ Printexc.to_string e));
+        (try print_string (Registry.dispatch t) with
+         | Stack_overflow -> print_string "MODEL_EXN stack_overflow"
+         | e -> print_string ("MODEL_EXN " ^ Printexc.to_string e));
         print_newline ()
       end
     done
